@@ -40,7 +40,7 @@ def replay(ctx, rp, family, detail):
   """Re-run one recorded case (document + tick) through observation and validation."""
   ad = rp["case"]["doc"]
   tick = rp["case"].get("tick")
-  recs = observe_all([(ad, 1, None if tick is None else [tick], detail, family == "c14")], procs=1)
+  recs = observe_all([(ad, 1, None if tick is None else [tick], detail, True if family == "c14" else rp["case"].get("via", False))], procs=1)
   ctx.nontrivial("replay")
   ctx.nontrivial("replay2")
   ctx.sample({"replayed": rp["clause"], "tick": tick})
@@ -70,6 +70,10 @@ def run(ctx, family=FAMILY, detail=False, decorate_docs=False, space=False):
               "(document, time)")
   fams = design_families(ctx)
   jobs = []
+
+  def via(r):
+    # every third document is snapshotted through the SignificantTimes cache (from_model(doc, t, sig)) instead of directly
+    return "snap" if family in ("c01", "c13") and r % 3 == 0 else False
   rid = 0
   origin = {}
   for name, (docs, tmax) in fams.items():
@@ -79,7 +83,7 @@ def run(ctx, family=FAMILY, detail=False, decorate_docs=False, space=False):
       rid += 1
       ad = dict(ad)
       ad["D"] = 2
-      jobs.append((ad, rid, list(range(0, tmax + 1)), detail, False))
+      jobs.append((ad, rid, list(range(0, tmax + 1)), detail, via(rid)))
       origin[rid] = ("family:" + name, ad)
   nrand = 6000 if thorough else 500
   index = None
@@ -93,16 +97,16 @@ def run(ctx, family=FAMILY, detail=False, decorate_docs=False, space=False):
       decorate(ad, ctx.rng, index)
     if family in ("c01", "c02") and ctx.rng.random() < 0.25:
       # re-time the same document object after the first round of snapshots and observe it again
-      jobs.append((ad, rid, None, detail, False, ctx.rng.randrange(1 << 30)))
+      jobs.append((ad, rid, None, detail, via(rid), ctx.rng.randrange(1 << 30)))
     else:
-      jobs.append((ad, rid, None, detail, False))
+      jobs.append((ad, rid, None, detail, via(rid)))
     origin[rid] = ("random", ad)
   recs = observe_all(jobs)
   good = []
   for r in recs:
     if r["id"] >= 1000000 and "error" not in r:
       # second round of a re-timed document: its abstract document is the recorded one
-      origin[r["id"]] = ("random-retimed", dict(r["doc"], D=origin[r["id"] - 1000000][1].get("D", 2)))
+      origin[r["id"]] = ("random-retimed", dict(origin[r["id"] - 1000000][1], **r["doc"]))   # keeps decorations (styles) and D
     if "error" in r:
       src, ad = origin.get(r["id"]) or origin[r["id"] - 1000000]
       f = doc_features(ad)
@@ -145,7 +149,8 @@ def run(ctx, family=FAMILY, detail=False, decorate_docs=False, space=False):
       from ..docgen import step_boundaries
       prev = max([s for s in r["sig"] if s <= tick], default=-1)
       f["explained_by_step_resolved_against_own_interval"] = explained(ad, r["sig"], prev, tick)
-    ctx.violation(clause, {"source": src, "doc": ad, "D": ad.get("D", 2), "tick": tick,
+    f["snapshot_via"] = "cache" if via(rid_ % 1000000) else "direct"
+    ctx.violation(clause, {"source": src, "doc": ad, "D": ad.get("D", 2), "tick": tick, "via": via(rid_ % 1000000),
                            "observed": r["obs"][j] if j is not None else None, "sig": r["sig"]},
                   f, f"{src} doc#{rid_} n={ad['n']} t={tick}/{ad.get('D', 2)}")
   if good:
